@@ -26,8 +26,11 @@ import (
 )
 
 type scen struct {
-	Accepted   int      `json:"accepted"`
-	Unaccepted int      `json:"unaccepted"`
+	Accepted   int `json:"accepted"`
+	Unaccepted int `json:"unaccepted"`
+	// Overflow: the listener's backlog is 1 and two more remotes than it holds send their first datagram before anybody
+	// accepts: the excess is refused and must leave nothing behind that keeps the socket open later
+	Overflow   bool     `json:"overflow,omitempty"`
 	LClose     int      `json:"listener_close"` // 0 none, 1 once, 2 twice
 	CClose     []int    `json:"conn_close"`     // per accepted conn: 0 none, 1 once, 2 twice (two tasks)
 	PendAccept bool     `json:"pending_accept"`
@@ -126,6 +129,9 @@ func runOne(sc *scen, st sched.Strategy, settle bool, hit map[int]bool) (rs resu
 	if sc.Filter {
 		lc.AcceptFilter = func([]byte) bool { return true }
 	}
+	if sc.Overflow {
+		lc.Backlog = 1
+	}
 	l, err := lc.Listen("udp", &net.UDPAddr{IP: net.IPv4(127, 0, 0, 1)})
 	if err != nil {
 		return result{key: "", desc: "inconclusive: listen: " + err.Error()}
@@ -194,11 +200,15 @@ func runOne(sc *scen, st sched.Strategy, settle bool, hit map[int]bool) (rs resu
 		}
 		conns[0].Write(make([]byte, n)) // deferred: sits in the batch until Close flushes it (the flush of 70000 bytes fails)
 	}
-	for i := 0; i < sc.Unaccepted; i++ {
+	nun := sc.Unaccepted
+	if sc.Overflow {
+		nun += 2
+	}
+	for i := 0; i < nun; i++ {
 		c := dial()
 		c.Write([]byte("unaccepted"))
 	}
-	if sc.Unaccepted > 0 {
+	if nun > 0 {
 		time.Sleep(300 * time.Microsecond) // let the read loop queue them (not asserted)
 	}
 	udp.VerifYield = s.Yield
@@ -621,6 +631,7 @@ func closeNoPanic(c interface{ Close() error }) (msg string) {
 
 func genScen(rng *rand.Rand) *scen {
 	sc := &scen{Accepted: rng.Intn(4), Unaccepted: rng.Intn(3), Seed: rng.Int63()}
+	defer func() { sc.Overflow = sc.Seed%5 == 0 }()
 	sc.LClose = []int{1, 1, 1, 2, 0}[rng.Intn(5)]
 	for i := 0; i < sc.Accepted; i++ {
 		sc.CClose = append(sc.CClose, []int{1, 1, 2, 0}[rng.Intn(4)])
